@@ -43,6 +43,7 @@ def parseOp : List String → Option Op
 
 def parseXOp : List String → Option XOp
   | ["cberr"] => some .cberr
+  | ["cancelat", j] => (parseNat j).map .cancelAt
   | toks => (parseOp toks).map .op
 
 def splitBar (toks : List String) : List (List String) :=
@@ -209,6 +210,7 @@ def stepLine (_ : Unit) (toks : List String) : Unit × Option Verdict :=
           tagIf (ops.any fun o => match o with | .unreg _ => true | _ => false) "unregister" ++
           tagIf (model.cycle > 2) "multi-cycle" ++
           tagIf (xmodel.errs.any (·.2.2)) "callback-error" ++
+          tagIf (xops.any fun o => match o with | .cancelAt j => j < is.length | _ => false) "cancel-during-aggregation" ++
           tagIf ((List.range is.length).any fun j => noSumInst is j && model.recs.any fun rc => rc.2.2.any fun st => st.inst == j) "nosum-histogram" ++
           tagIf ((List.range is.length).any fun j => noMM.getD j false && model.recs.any fun rc => rc.2.2.any fun st => st.inst == j && isHistDT st.dt) "nominmax-histogram" ++
           tagIf (model.recs.any fun rc => rc.2.2.any fun st => st.dt == .expo && st.pts.any fun p =>
